@@ -117,7 +117,7 @@ Proof.
   match goal with E : deep_copy _ _ _ _ _ = Val _ |- _ =>
     destruct (deep_copy_garb _ _ _ _ _ _ _ (garb_refl w) E) as (G1 & Hfresh); clear E end.
   match goal with c : id |- _ => specialize (Hfresh c eq_refl) end.
-  (* read-only checks on the copy (fix f5f3361) and the path of the destination: a failure leaves the garbage world *)
+  (* read-only checks on the copy (fix a8ba45e) and the path of the destination: a failure leaves the garbage world *)
   repeat first [ wer H; [|assumption]
                | match type of H with (if ?b then _ else _) _ = _ => destruct b; [winvs; assumption|] end ].
   wer H; [|exfalso; noer].
